@@ -3,6 +3,7 @@
 The real metrics.EsClient.guarded is executed against a stub target whose outcome per call is symbolic (class, HTTP status,
 bulk item statuses); time.sleep / random.random inside esrally.metrics are stubs (recorder / arbitrary value in [0,1)).
 """
+import datetime
 import types as pytypes
 
 import elastic_transport
@@ -11,8 +12,9 @@ import elasticsearch.helpers
 
 from esrally import exceptions, metrics
 
+from harness.common import concrete
 from symx import core
-from symx.core import fresh_int, fresh_real, observe, shadowed
+from symx.core import fresh_bool, fresh_int, fresh_real, observe, shadowed
 from symx.explore import Harness
 
 PROPERTY = "C17"
@@ -443,6 +445,87 @@ def operations(sl):
         observe("result of the successful attempt returned", val == ("result", exp[1] - 1))
 
 
+def store_flush(sl):
+    """EsMetricsStore.flush / close on a recording client: the buffered documents are sent by ONE successful bulk call and never again -
+    also when the refresh that follows it fails for good and the store is flushed or closed again later"""
+    from harness.common import StubCfg
+
+    sent, refreshes = [], []
+    refresh_fails_once = bool(fresh_bool("first_refresh_after_the_bulk_fails"))
+    bulk_fails_once = bool(fresh_bool("first_bulk_fails"))
+    n1 = concrete(fresh_int("documents_buffered_before_the_first_flush", 0, 2))
+    n2 = concrete(fresh_int("documents_added_before_the_second_flush", 0, 1))
+    second = ["flush", "close"][concrete(fresh_int("second_call_is_flush_or_close", 0, 1))]
+
+    class Client:
+        def bulk_index(self, index, items):
+            if bulk_fails_once and not any(x == "bulk-failed" for x in refreshes):
+                refreshes.append("bulk-failed")
+                raise exceptions.RallyError("A transport error occurred while running the operation [bulk_index]")
+            sent.append([d["value"] for d in items])
+
+        def refresh(self, index):
+            n = len([x for x in refreshes if x != "bulk-failed"])
+            refreshes.append("refresh")
+            if refresh_fails_once and n == 1:  # refresh 0 belongs to open()
+                raise exceptions.RallyError("The configured user does not have enough privileges to run the operation [refresh]")
+
+        def exists(self, index):
+            return True
+
+        def template_exists(self, name):
+            return False
+
+        def put_template(self, name, template):
+            pass
+
+        def create_index(self, index):
+            pass
+
+    class Factory:
+        def __init__(self, cfg):
+            pass
+
+        def create(self):
+            return Client()
+
+    class Templates:
+        def __init__(self, cfg):
+            pass
+
+        def metrics_template(self):
+            return "{}"
+
+    cfg = StubCfg({("system", "env.name"): "unittest", ("reporting", "datastore.number_of_shards"): None, ("reporting", "datastore.number_of_replicas"): None})
+    st = metrics.EsMetricsStore(cfg, client_factory_class=Factory, index_template_provider_class=Templates)
+    st.open("race-1", datetime.datetime(2024, 1, 1), "t", "c", "car", create=False)
+    k = 0
+    for _ in range(n1):
+        k += 1
+        st.put_value_cluster_level("m", k, "ms")
+    errors = []
+    try:
+        st.flush()
+    except exceptions.RallyError as e:
+        errors.append(str(e)[:40])
+    for _ in range(n2):
+        k += 1
+        st.put_value_cluster_level("m", k, "ms")
+    last_ok = True
+    try:
+        getattr(st, second)()
+    except exceptions.RallyError as e:
+        errors.append(str(e)[:40])
+        last_ok = False
+    flat = [v for batch in sent for v in batch]
+    core.trace("sent", len(flat))
+    core.note("batches / errors", (sent, errors))
+    observe("no document reaches the metrics store twice (a call is not repeated after it succeeded)", len(flat) == len(set(flat)))
+    if last_ok:
+        observe("after a flush / close that succeeded every buffered document has been sent", sorted(flat) == list(range(1, k + 1)))
+    observe("nothing is sent that was not buffered", set(flat) <= set(range(1, k + 1)))
+
+
 READS = [metrics.EsClient.guarded, metrics.EsClient.bulk_index, metrics.EsClient.index, metrics.EsClient.search, metrics.EsClient.refresh,
          metrics.EsClient.put_template, metrics.EsClient.get_template, metrics.EsClient.template_exists, metrics.EsClient.delete_by_query,
          metrics.EsClient.delete, metrics.EsClient.get_index, metrics.EsClient.create_index, metrics.EsClient.exists]
@@ -450,6 +533,10 @@ STUBS = ["wrapped client function (symbolic outcome per call)", "time.sleep insi
          "random.random inside esrally.metrics (arbitrary real in [0,1))", "transport.node_pool.get() (fixed host/port for messages)"]
 
 HARNESSES = [
+    Harness("store_flush", store_flush, "bounded-exhaustive", lambda tier: [{}], reads=[metrics.EsMetricsStore.flush, metrics.MetricsStore.close, metrics.EsMetricsStore.open],
+            stubs=["metrics store client recording bulk_index / refresh (guarded() itself is covered by the other harnesses): a call may fail for good once"],
+            bounds={"documents": "0..2 before the first flush, 0..1 before the second flush / close", "faults": "the first bulk and / or the refresh after it fail"},
+            doc="buffer hand-over of the Elasticsearch metrics store: every document sent once, never again after success"),
     Harness("full_sequences", full_sequences, "symbolic",
             lambda tier: [{"len": 1, "items": 3}, {"len": 2, "items": 2, "_w": 2}, {"len": 3, "items": 1, "_w": 3}]
             + ([{"len": 3, "items": 2, "_w": 9}, {"len": 4, "items": 1, "_w": 8}] if tier == "thorough" else []), reads=READS, stubs=STUBS,
